@@ -376,6 +376,28 @@ fn build(case: &Value) -> (String, Expectation) {
                     *exp.refusals.entry(why).or_default() += 1;
                 }
             }
+            "next_store" => {
+                // a string variable is stored right before `next` and consumed at the top of the following
+                // iteration: the store is only live along the loop's back edge
+                let w: Vec<&str> = st["words"].as_array().unwrap().iter().map(|x| x.as_str().unwrap()).collect();
+                let r_ = recv(var);
+                src += &format!(
+                    "make v{fi} get {}\nmake n{fi} get 0\njasi (n{fi} small pass 3) start\n    n{fi} get n{fi} add 1\n    {r_}.arg(v{fi})\n    if to say (n{fi} na 1) start\n        v{fi} get {}\n        next\n    end\n    v{fi} get {}\nend\n",
+                    strlit(w[0]), strlit(w[1]), strlit(w[2])
+                );
+                fi += 1;
+                if live {
+                    for x in &w {
+                        if let Some(c) = model.get_mut(&var)
+                            && let Err(why) = apply(c, &json!({"k": "arg", "v": x}))
+                        {
+                            exp.ending = Some(vec!["Invalid process configuration"]);
+                            *exp.refusals.entry(why).or_default() += 1;
+                            break;
+                        }
+                    }
+                }
+            }
             "nested_reset" => {
                 // the builder is used at the top of every outer round and replaced inside an inner loop:
                 // whether that assignment is live is only known after the analysis has gone round both loops
@@ -586,7 +608,8 @@ impl Engine for C15 {
                 10 | 11 => steps.push(json!({"s": "loop_op", "var": var, "op": gen_op(&mut r), "n": r.range(1, 3), "computed": computed})),
                 12 | 13 => steps.push(json!({"s": "via_func", "var": var, "op": gen_op(&mut r), "computed": computed})),
                 14 => steps.push(json!({"s": r.pick(&["touch_func", "cap_func", "shadow_func"]), "var": var, "op": gen_op(&mut r), "computed": computed})),
-                17 if r.chance(50) => match r.below(3) {
+                17 if r.chance(60) => match r.below(4) {
+                    3 => steps.push(json!({"s": "next_store", "var": var, "words": [word(&mut r, 3), word(&mut r, 3), word(&mut r, 3)]})),
                     0 => steps.push(json!({"s": "interp_func", "var": var, "old": word(&mut r, 3), "new": word(&mut r, 3), "key": if r.chance(40) { json!(r.pick(&["K", "A", "k"])) } else { Value::Null }, "computed": computed})),
                     1 if var >= slots => steps.push(json!({"s": "nested_reset", "var": var, "program": program(&mut r), "computed": computed})),
                     _ => steps.push(json!({"s": "env_pops", "var": var, "key": r.pick(&["K", "PATH", "A", "k"]), "v": word(&mut r, 3)})),
@@ -645,6 +668,34 @@ impl Engine for C15 {
             return exec_real(case);
         }
         let mut res = RunResult::new();
+        // once per process: two scripts in a row fail to spawn for different reasons; each must report
+        // its own reason (nothing a run says may be left over from an earlier run in the same process)
+        static SPAWN_TEXT_PROBED: std::sync::atomic::AtomicBool = std::sync::atomic::AtomicBool::new(false);
+        if !SPAWN_TEXT_PROBED.swap(true, std::sync::atomic::Ordering::SeqCst) {
+            for errno in [libc::ENOENT, libc::EACCES] {
+                let cfg = world::Config {
+                    scripts: vec![vec![ChildOp::Exit(0)]],
+                    pipe_cap: 64,
+                    epipe_die: true,
+                    faults: world::Faults { spawn_errors: vec![(0, errno)], ..world::Faults::default() },
+                    jitter_seed: 1,
+                    keep_log: false,
+                };
+                let shared: Arc<Mutex<Option<pipeline::Outcome>>> = Arc::new(Mutex::new(None));
+                let sh = shared.clone();
+                let sched = SchedMode::Segments { segs: vec![] };
+                let _ = hostsim::run_in_sim(cfg, &sched, true, 100_000, move || {
+                    let policy = HostPolicy { allow_process: true, process: ProcessCaps::defaults() };
+                    *sh.lock().unwrap() = Some(pipeline::run_library("make c get command(\"p\")\nmake r get c.run()\n", true, Some(policy)));
+                });
+                let want = std::io::Error::from_raw_os_error(errno).to_string();
+                let got = shared.lock().unwrap().take();
+                let ok = matches!(&got, Some(pipeline::Outcome::Ran { err, .. }) if err.first().is_some_and(|e| e.starts_with("Process spawn failed") && e.contains(&want)));
+                if !ok {
+                    return res.violation("stale-error-text", format!("a spawn refused with `{want}` was reported as {got:?}"));
+                }
+            }
+        }
         let (src, exp) = build(case);
         let sched = SchedMode::from_json(&case["sched"]);
         let faults = world::Faults {
